@@ -466,8 +466,9 @@ fn lbl(rule: &str, class: &str, mutation: &str) -> Vec<Label> {
 
 /// minimised past failures and the DESIGN §9 rows, run first
 fn corpus() -> Vec<Case> {
-    let s1 = "type Query { f(x: In, fl: Float, id: ID, l: [Int], ll: [[Int]], n: Int!, e: E): Int a: A i: I u: U }\n\
+    let s1 = "type Query { f(x: In, fl: Float, id: ID, l: [Int], ll: [[Int]], nl: [Int!], n: Int!, e: E, y: In2): Int a: A i: I u: U }\n\
               input In { a: Int b: Int r: Int! = 1 }\n\
+              input In2 { q: Int! }\n\
               enum E { X Y }\n\
               interface I { id: ID }\n\
               type A implements I { id: ID x: Int b: B }\n\
@@ -485,6 +486,14 @@ fn corpus() -> Vec<Case> {
         c("g-unspread-fragment", "fragment F on A { nonexistent }", lbl("5.3.1", "unspread-frag", "rename-field")),
         c("same-interface-inline", "query Q { i { ... on I { nonexistent } } }", lbl("5.3.1", "same-interface-inline", "rename-field")),
         c("variable-default-unchecked", "query Q($v: Int = \"s\") { f(n: 1, l: [$v]) }", lbl("5.6.1", "var-default", "wrong-literal-type")),
+        // 5.8.5 with defaults (spec IsVariableUsageAllowed: only a NON-NULL variable default stands in for null)
+        c("null-default-at-non-null-arg", "query Q($v: Int = null) { f(n: $v) }", lbl("5.8.5", "op/arg:top/null-default-at-non-null", "null-default-at-non-null")),
+        c("null-default-at-non-null-input-field", "query Q($v: Int = null) { f(n: 1, x: {r: $v}) }", vec![]),
+        c("null-default-at-non-null-input-field-no-default", "query Q($v: Int = null) { f(n: 1, y: {q: $v}) }", lbl("5.8.5", "op/arg:input-field/null-default-at-non-null", "null-default-at-non-null")),
+        c("null-default-at-non-null-list-item", "query Q($v: Int = null) { f(n: 1, nl: [$v]) }", lbl("5.8.5", "op/arg:list-item/null-default-at-non-null", "null-default-at-non-null")),
+        c("null-default-at-non-null-directive-arg", "query Q($v: Boolean = null) { f(n: 1) @skip(if: $v) }", lbl("5.8.5", "op/directive-arg@FIELD:top/null-default-at-non-null", "null-default-at-non-null")),
+        c("null-default-at-non-null-in-fragment", "query Q($v: Int = null) { ...F } fragment F on Query { f(n: $v) }", lbl("5.8.5", "frag1/arg:top/null-default-at-non-null", "null-default-at-non-null")),
+        c("nullable-item-variable", "query Q($v: [Int]) { f(n: 1, nl: $v) }", lbl("5.8.5", "op/arg:top/nullable-item-at-non-null-item", "list-shape-mismatch")),
         // C04 rows
         c("l-int-for-float", "query Q { f(n: 1, fl: 1) }", vec![]),
         c("l-int-for-id", "query Q { f(n: 1, id: 1) }", vec![]),
